@@ -328,7 +328,8 @@ def pickle_rules(model, R):
     R.check(ok, 'PICKLE', red, xy[0] if xy else red.node, 'Relation.__reduce__: X, Y are the classes of the first and second family', 'X, Y = (v.BitSet for v in self)')
     R.check(new.params[1:] == ['xname', 'yname', 'xmembers', 'ymembers', 'xbools', '_ids'], 'PICKLE', new, new.node, 'Relation.__new__ parameter order',
             "['xname', 'yname', 'xmembers', 'ymembers', 'xbools', '_ids']", str(new.params[1:]))
-    ids = [s for s in stmts(new.body) if isinstance(s, ast.Assign) and name_is(s.value, '_ids')]
+    ids = [s for s in stmts(new.body) if isinstance(s, ast.Assign) and isinstance(s.targets[0], ast.Tuple)
+           and (name_is(s.value, '_ids') or (isinstance(s.value, ast.IfExp) and name_is(s.value.body, '_ids')))]
     okids = bool(ids) and [src(t) for t in ids[0].targets[0].elts] == ['xid', 'yid']
     uses = {s.targets[0].id: src(s.value.args[2]) for s in stmts(new.body) if isinstance(s, ast.Assign) and isinstance(s.targets[0], ast.Name)
             and s.targets[0].id in ('X', 'Y') and isinstance(s.value, ast.Call) and (chain(s.value.func) or [''])[-2:] == ['meta', 'bitset'] and len(s.value.args) > 2}
